@@ -71,6 +71,7 @@ struct Outcome {
 struct RunCtx {
   std::set<std::string> known;   // ids of findings with status "known" (regions are excluded)
   bool thorough = false;
+  bool fuzz = false;     // running under libFuzzer: keep single executions short
 };
 
 // accumulates sub-check results of one case
